@@ -625,7 +625,7 @@ void CORPdoWrite(CO_RPDO *pdo, CO_IF_FRM *frm)
     uint16_t val16;
     uint8_t  val08;
     uint8_t  on;
-    uint8_t  sz;
+    uint32_t sz;
     uint8_t  pdosz;
     uint8_t  dlc = 0;
 
@@ -635,7 +635,7 @@ void CORPdoWrite(CO_RPDO *pdo, CO_IF_FRM *frm)
         if (obj != 0) {
             if (pdosz <= 4) {
                 /* supported mapping: 1 to 4 bytes */
-                sz = (uint8_t)COObjGetSize(obj, pdo->Node, 0L);
+                sz = COObjGetSize(obj, pdo->Node, 0L);
                 if (sz == 1u) {
                     val08 = CO_GET_BYTE(frm, dlc);
                     dlc++;
